@@ -1,12 +1,18 @@
 import Model.Cli.SaveFS
+import Model.Cli.Patch
+import Proofs.DeltaNested
+import Proofs.DeltaOpcodes
 /-!
 # C20 — `deep patch`: failures while saving restore the file; success writes it (and the backup)
 
 Model: `Model/Cli/SaveFS.lean`.  Theorems quantify over every file system, every path, every
 content and every fault point of `_save_content` (open, serialise, write with any partial text,
 close with any written text).  The end-to-end clause (diff --create-patch then patch reproduces
-B) composes C01, C14 and the JSON tree round trip and is evaluated on the real CLI in the
-correspondence part; its theorem waits for the Delta model (C01).
+B) is the composition theorem `C20_patch_reproduces` at the end of this file: the two commands as functions over
+the file system (`Model/Cli/Patch.lean`), with the text layers (JSON reading / writing, persistence of the delta: C14) as
+a codec that reads back what it writes, and the round trip of C01 as the hypothesis it is instantiated with on the domains
+where C01 is a theorem (nested JSON objects: `C20_patch_reproduces_nested_objects`; lists with recorded opcodes:
+`C20_patch_reproduces_list`).
 -/
 namespace SaveFS
 
@@ -64,3 +70,148 @@ example : ((save (some "{\"a\": 2}") (fun p => if p = "A.json" then some "{\"a\"
   decide
 
 end SaveFS
+
+
+namespace CliPatch
+open Py Diff Delta SaveFS
+
+/-- what the text layers have to satisfy: a document that was written reads back as the value that was written, and a
+persisted delta reloads as the delta it was (property C14) -/
+structure Faithful (C : Codec) : Prop where
+  json : ∀ v s, C.render v = some s → C.parse s = some v
+  delta : ∀ d, C.loadDelta (C.dumpDelta d) = some d
+
+/-- **`deep diff A B --create-patch` followed by `deep patch A patch`**, for every pair of documents on which the round trip
+of C01 holds (`hrt`), every faithful codec, `--backup` or not, and a fault at any point of the save path: the command
+always terminates with a verdict; without an error `A` holds a text that loads as a value `== B` and `A.bak` holds the
+previous content exactly when asked for; with an error `A` holds its previous content and no `A.bak` remains; no other
+path is touched either way; and an error is reported exactly when a fault was injected or the patched content cannot
+be serialised. -/
+theorem C20_patch_reproduces_at (C : Codec) (cfg : DCfg) (al : Align) (hashOf : PyVal → String)
+    (fs : FS) (pA pB pD : String) (hpD : pD ≠ pA) (a b : PyVal) (sa sb : String)
+    (hA : fs pA = some sa) (hB : fs pB = some sb) (ha : C.parse sa = some a) (hb : C.parse sb = some b)
+    (hdelta : C.loadDelta (C.dumpDelta (buildDelta true false a b (deepDiff cfg al hashOf a b))) = some (buildDelta true false a b (deepDiff cfg al hashOf a b)))
+    (hjson : ∀ s, C.render (applyDelta false (buildDelta true false a b (deepDiff cfg al hashOf a b)) a).root = some s →
+      C.parse s = some (applyDelta false (buildDelta true false a b (deepDiff cfg al hashOf a b)) a).root)
+    (patch : String) (hdiff : cliDiff C cfg al hashOf fs pA pB = some patch)
+    (hrt : pyEq (applyDelta false (buildDelta true false a b (deepDiff cfg al hashOf a b)) a).root b = true)
+    (keep : Bool) (f : Fault) :
+    ∃ fs' raised, cliPatch C (fs.set pD (some patch)) pA pD keep f = some (fs', raised) ∧
+      (raised = false → ∃ s r, fs' pA = some s ∧ C.parse s = some r ∧ pyEq r b = true ∧
+        fs' (bak pA) = (if keep then some sa else none)) ∧
+      (raised = true → fs' pA = some sa ∧ fs' (bak pA) = none) ∧
+      (∀ q, q ≠ pA → q ≠ bak pA → fs' q = (fs.set pD (some patch)) q) ∧
+      (raised = true ↔ (f ≠ .none ∨ C.render (applyDelta false (buildDelta true false a b (deepDiff cfg al hashOf a b)) a).root = none)) := by
+  generalize hr : (applyDelta false (buildDelta true false a b (deepDiff cfg al hashOf a b)) a).root = r at hrt hjson ⊢
+  have hpatch : patch = C.dumpDelta (buildDelta true false a b (deepDiff cfg al hashOf a b)) := by
+    unfold cliDiff at hdiff
+    simp only [hA, hB, ha, hb, Option.some.injEq] at hdiff
+    exact hdiff.symm
+  have hload : C.loadDelta patch = some (buildDelta true false a b (deepDiff cfg al hashOf a b)) := by rw [hpatch]; exact hdelta
+  have hA1 : (fs.set pD (some patch)) pA = some sa := by simp [FS.set, Ne.symm hpD, hA]
+  have hD1 : (fs.set pD (some patch)) pD = some patch := by simp [FS.set]
+  have hcli : cliPatch C (fs.set pD (some patch)) pA pD keep f = save (C.render r) (fs.set pD (some patch)) pA keep f := by
+    unfold cliPatch
+    simp only [hD1, hload, hA1, ha, hr]
+  obtain ⟨fs', hsave⟩ := C20_raises_iff (C.render r) (fs.set pD (some patch)) pA sa keep f hA1
+  refine ⟨fs', decide (f ≠ .none ∨ C.render r = none), hcli.trans hsave, ?_, ?_, ?_, ?_⟩
+  · intro hfalse
+    rw [hfalse] at hsave
+    obtain ⟨⟨s, hs, hfs⟩, hbak, _⟩ := C20_success (C.render r) (fs.set pD (some patch)) pA sa keep f hA1 fs' hsave
+    exact ⟨s, r, hfs, hjson s hs, hrt, hbak⟩
+  · intro htrue
+    rw [htrue] at hsave
+    obtain ⟨h1, h2, _⟩ := C20_atomic (C.render r) (fs.set pD (some patch)) pA sa keep f hA1 fs' hsave
+    exact ⟨h1, h2⟩
+  · by_cases hd : decide (f ≠ .none ∨ C.render r = none) = true
+    · rw [hd] at hsave
+      exact (C20_atomic (C.render r) (fs.set pD (some patch)) pA sa keep f hA1 fs' hsave).2.2
+    · have hd' : decide (f ≠ .none ∨ C.render r = none) = false := by simpa using hd
+      rw [hd'] at hsave
+      exact (C20_success (C.render r) (fs.set pD (some patch)) pA sa keep f hA1 fs' hsave).2.2
+  · simp only [decide_eq_true_eq]
+
+/-- the same for a codec that is faithful everywhere -/
+theorem C20_patch_reproduces (C : Codec) (hC : Faithful C) (cfg : DCfg) (al : Align) (hashOf : PyVal → String)
+    (fs : FS) (pA pB pD : String) (hpD : pD ≠ pA) (a b : PyVal) (sa sb : String)
+    (hA : fs pA = some sa) (hB : fs pB = some sb) (ha : C.parse sa = some a) (hb : C.parse sb = some b)
+    (patch : String) (hdiff : cliDiff C cfg al hashOf fs pA pB = some patch)
+    (hrt : pyEq (applyDelta false (buildDelta true false a b (deepDiff cfg al hashOf a b)) a).root b = true)
+    (keep : Bool) (f : Fault) :
+    ∃ fs' raised, cliPatch C (fs.set pD (some patch)) pA pD keep f = some (fs', raised) ∧
+      (raised = false → ∃ s r, fs' pA = some s ∧ C.parse s = some r ∧ pyEq r b = true ∧
+        fs' (bak pA) = (if keep then some sa else none)) ∧
+      (raised = true → fs' pA = some sa ∧ fs' (bak pA) = none) ∧
+      (∀ q, q ≠ pA → q ≠ bak pA → fs' q = (fs.set pD (some patch)) q) ∧
+      (raised = true ↔ (f ≠ .none ∨ C.render (applyDelta false (buildDelta true false a b (deepDiff cfg al hashOf a b)) a).root = none)) :=
+  C20_patch_reproduces_at C cfg al hashOf fs pA pB pD hpD a b sa sb hA hB ha hb (hC.delta _) (fun s hs => hC.json _ s hs) patch hdiff hrt keep f
+
+/-- the composition on **nested JSON objects** (string keys at every level, scalar leaves, any depth), where the round
+trip of C01 is a theorem (`nested_roundtrip`): every plain ordered configuration, every threshold, every alignment oracle -/
+theorem C20_patch_reproduces_nested_objects (C : Codec) (hC : Faithful C) (cfg : DCfg) (hp : Diff.Plain cfg) (al : Align)
+    (hashOf : PyVal → String) (fs : FS) (pA pB pD : String) (hpD : pD ≠ pA) (a b : PyVal) (sa sb : String)
+    (hA : fs pA = some sa) (hB : fs pB = some sb) (ha : C.parse sa = some a) (hb : C.parse sb = some b)
+    (ja : J cfg.ignorePrivate a) (jb : J cfg.ignorePrivate b)
+    (patch : String) (hdiff : cliDiff C cfg al hashOf fs pA pB = some patch) (keep : Bool) (f : Fault) :
+    ∃ fs' raised, cliPatch C (fs.set pD (some patch)) pA pD keep f = some (fs', raised) ∧
+      (raised = false → ∃ s r, fs' pA = some s ∧ C.parse s = some r ∧ pyEq r b = true ∧
+        fs' (bak pA) = (if keep then some sa else none)) ∧
+      (raised = true → fs' pA = some sa ∧ fs' (bak pA) = none) ∧
+      (∀ q, q ≠ pA → q ≠ bak pA → fs' q = (fs.set pD (some patch)) q) := by
+  have hrt : pyEq (applyDelta false (buildDelta true false a b (deepDiff cfg al hashOf a b)) a).root b = true := by
+    obtain ⟨r, h, he⟩ := nested_roundtrip cfg hp al hashOf false true false (fun h => by cases h) a b ja jb
+    rw [h]; exact he
+  obtain ⟨fs', raised, h1, h2, h3, h4, _⟩ := C20_patch_reproduces C hC cfg al hashOf fs pA pB pD hpD a b sa sb hA hB ha hb patch hdiff hrt keep f
+  exact ⟨fs', raised, h1, h2, h3, h4⟩
+
+/-- the composition on **lists of scalars whose patch carries difflib's opcodes** (the default mode of the CLI), where the
+round trip of C01 is `list_opcodes_roundtrip`: the patched file loads as exactly the second list -/
+theorem C20_patch_reproduces_list (C : Codec) (hC : Faithful C) (cfg : DCfg) (hp : Diff.Plain cfg) (hz : cfg.zip = false) (al : Align)
+    (hashOf : PyVal → String) (fs : FS) (pA pB pD : String) (hpD : pD ≠ pA) (xs ys : List PyVal) (sa sb : String)
+    (hA : fs pA = some sa) (hB : fs pB = some sb) (ha : C.parse sa = some (.list xs)) (hb : C.parse sb = some (.list ys))
+    (hbx : ∀ x ∈ xs, isBasic x = true) (hby : ∀ y ∈ ys, isBasic y = true)
+    (htiles : TilesO xs ys 0 0 (al xs ys)) (hmono : ∀ o ∈ al xs ys, o.i1 ≤ o.i2)
+    (h1 : 2 ≤ (opcodeEntries [] xs ys (al xs ys)).length)
+    (h2 : (opcodeEntries [] xs ys (al xs ys)).length < (pairBasic [] 0 0 xs ys).length)
+    (patch : String) (hdiff : cliDiff C cfg al hashOf fs pA pB = some patch) (keep : Bool) (f : Fault) :
+    ∃ fs' raised, cliPatch C (fs.set pD (some patch)) pA pD keep f = some (fs', raised) ∧
+      (raised = false → ∃ s r, fs' pA = some s ∧ C.parse s = some r ∧ pyEq r (.list ys) = true ∧
+        fs' (bak pA) = (if keep then some sa else none)) ∧
+      (raised = true → fs' pA = some sa ∧ fs' (bak pA) = none) ∧
+      (∀ q, q ≠ pA → q ≠ bak pA → fs' q = (fs.set pD (some patch)) q) := by
+  have hrt : pyEq (applyDelta false (buildDelta true false (.list xs) (.list ys) (deepDiff cfg al hashOf (.list xs) (.list ys))) (.list xs)).root (.list ys) = true := by
+    rw [(list_opcodes_roundtrip cfg hp hz al hashOf false true false xs ys hbx hby htiles hmono h1 h2).1]
+    simp only [pyEq]
+    refine pyEqL_of_getElem ys ys rfl (fun k hk => ?_)
+    have hm : ys[k]?.getD .none ∈ ys := by
+      rw [List.getElem?_eq_getElem hk]; exact List.getElem_mem hk
+    exact pyEq_refl_basic' _ (hby _ hm)
+  obtain ⟨fs', raised, g1, g2, g3, g4, _⟩ := C20_patch_reproduces C hC cfg al hashOf fs pA pB pD hpD (.list xs) (.list ys) sa sb hA hB ha hb patch hdiff hrt keep f
+  exact ⟨fs', raised, g1, g2, g3, g4⟩
+
+/-! Non-vacuity: the hypotheses of `C20_patch_reproduces_at` are met by a concrete run -- `{"a": 1, "b": {"x": "u"}}` patched into
+`{"a": 2, "b": {"y": null}}` through a codec that is a lookup table over the texts involved -/
+section Example
+def exA : PyVal := .dict [(.str "a", .int 1), (.str "b", .dict [(.str "x", .str "u")])]
+def exB : PyVal := .dict [(.str "a", .int 2), (.str "b", .dict [(.str "y", .none)])]
+def exCfg : DCfg := {}
+def exAl : Align := fun _ _ => []
+def exD : DeltaD := buildDelta true false exA exB (deepDiff exCfg exAl (fun _ => "") exA exB)
+def exCodec : Codec :=
+  { parse := fun s => if s = "A" then some exA else if s = "B" then some exB else if s = "OUT" then some (applyDelta false exD exA).root else none,
+    render := fun _ => some "OUT", dumpDelta := fun _ => "P", loadDelta := fun s => if s = "P" then some exD else none }
+def exFS : FS := fun p => if p = "A.json" then some "A" else if p = "B.json" then some "B" else none
+
+example : cliDiff exCodec exCfg exAl (fun _ => "") exFS "A.json" "B.json" = some "P" := by
+  simp [cliDiff, exFS, exCodec]
+example : exCodec.loadDelta (exCodec.dumpDelta exD) = some exD := by simp [exCodec]
+example : ∀ s, exCodec.render (applyDelta false exD exA).root = some s → exCodec.parse s = some (applyDelta false exD exA).root := by
+  intro s hs; simp [exCodec] at hs; subst hs; simp [exCodec]
+example : Diff.Plain exCfg := ⟨rfl, rfl, rfl⟩
+/-- and the run itself, with `--backup` and no fault: `A.json` holds the text of the patched value, `A.json.bak` the previous text -/
+example : ((cliPatch exCodec (exFS.set "p.pkl" (some "P")) "A.json" "p.pkl" true .none).map (fun r => (r.1 "A.json", r.1 "A.json.bak", r.2))) =
+    some (some "OUT", some "A", false) := by
+  simp [cliPatch, exCodec, exFS, FS.set, save, saveContent, rename, bak]
+end Example
+
+end CliPatch
